@@ -622,12 +622,21 @@ def _rand_topology(rng, n_leaves, unary=0.15, max_arity=4):
         node = group
         if rng.random() < unary:
             node = [node]
+            while rng.random() < 0.5:            # chains of directly nested one-child nodes
+                node = [node]
         items.insert(rng.randint(0, len(items)), node)
     t = items[0]
     if rng.random() < unary:
         t = [t]
+        while rng.random() < 0.4:
+            t = [t]
     if rng.random() < unary and t is None:
         t = [t]
+    # a leaf hanging on a chain of one-child nodes
+    if rng.random() < unary and isinstance(t, list) and len(t) >= 2:
+        k = rng.randrange(len(t))
+        if t[k] is None:
+            t[k] = [[None]] if rng.random() < 0.5 else [[[None]]]
     return t
 
 
@@ -1036,6 +1045,11 @@ def cases(rng, tier):
         yield {"kind": "binnode", "tree": tree, "ops": [f"binnode {_tok(tree)}"]}
 
 
+# '((((0:1,1:2):10):5):3,2:8);' -- two directly nested one-child nodes; and a three-fold chain over a leaf
+_CHAIN = [["3", [["5", [["10", [["1", 0], ["2", 1]]]]]]], ["8", 2]]
+_CHAIN3 = [["1/2", [["3/4", [["2", [["4", 0]]]]]]], ["1", [["7", [["1/4", 1], ["0", 2], ["6", [["5", 3]]]]]]]]
+
+
 def corpus():
     t = [["1", [["1/2", 0], ["3/2", 1]]], ["5/2", 2], ["0", [["1", 3]]]]
     return [
@@ -1048,6 +1062,9 @@ def corpus():
          "ops": [f"write 1 {_labels(['a', 'b', 'c', 'd'])} {_tok(t)}", f"write 0 - {_tok(t)}",
                  f"read - {_str(' ( (0:0.5 ,1:1.5):1.0, 2:2.5,(3:1.0):0.0 ) ; ')}", f"read - {_str('((0,1),2,(3));')}"]},
         {"kind": "binary", "tree": t, "ops": [f"binary {_tok(t)}"]},
+        {"kind": "binary", "tree": _CHAIN, "ops": [f"binary {_tok(_CHAIN)}"]},
+        {"kind": "binary", "tree": _CHAIN3, "ops": [f"binary {_tok(_CHAIN3)}"]},
+        {"kind": "copy", "tree": _CHAIN3, "ops": [f"copy {_tok(_CHAIN3)}"]},
     ]
 
 
